@@ -132,7 +132,7 @@ func (t *threadCtx) baseSources(e ast.Expr, depth int, out map[string]bool) {
 								okn = false
 							}
 						}
-						if okn {
+						if okn || c.isNormalisedRef(t.fd, se.X, nil, 0) {
 							out["remote"] = true
 							return
 						}
@@ -355,6 +355,48 @@ func ruleThreadArgs(c *Ctx) {
 				c.undecided(rule, key+":loader", call.Pos(), "cannot find the loader argument")
 			}
 		}
+		// normalizeURI(text, base) / normalizeRef(ref, base) inside a family member: the base is the member's own
+		// current base, by the same provenance (a $ref normalised against the root's base instead of the current
+		// document's names another location, and whatever is looked up under it - the memo of circular
+		// references, the cache - answers for the wrong document)
+		nn := 0
+		ast.Inspect(fd.Body, func(nd ast.Node) bool {
+			call, ok := nd.(*ast.CallExpr)
+			if !ok || len(call.Args) != 2 || !(c.isSpecFunc(call, "normalizeURI") || c.isSpecFunc(call, "normalizeRef")) {
+				return true
+			}
+			nn++
+			c.saw(fn)
+			key := fmt.Sprintf("%s:normalise#%d:base", fn, nn)
+			t.at = call.Pos()
+			src := map[string]bool{}
+			t.baseSources(call.Args[1], 0, src)
+			bad := unknownSources(src)
+			c.ob(rule, key, call.Pos(), len(bad) == 0 && len(src) > 0,
+				fmt.Sprintf("the base %s that a $ref is normalised against derives from %v, not from the base path this expander was given: the $ref then names a location in another document", exprString(call.Args[1]), bad))
+			return true
+		})
+		// updateBasePath(loader, B): B is what the base stays at when the loader has not changed, so it is a base
+		// like any other (the location of a normalised reference without its fragment, or the member's own base)
+		nu := 0
+		ast.Inspect(fd.Body, func(nd ast.Node) bool {
+			call, ok := nd.(*ast.CallExpr)
+			if !ok || len(call.Args) != 2 {
+				return true
+			}
+			if r, name, pkg, isM := c.calleeMethod(call); !isM || pkg != specPkgPath || r != fam.loader.Obj().Name() || name != "updateBasePath" {
+				return true
+			}
+			nu++
+			c.saw(fn)
+			t.at = call.Pos()
+			src := map[string]bool{}
+			t.baseSources(call.Args[1], 0, src)
+			bad := unknownSources(src)
+			c.ob(rule, fmt.Sprintf("%s:updateBasePath#%d:base", fn, nu), call.Pos(), len(bad) == 0 && len(src) > 0,
+				fmt.Sprintf("the base %s handed to the base-path switch derives from %v: not the current base, nor the location (without fragment) of a normalised reference", exprString(call.Args[1]), bad))
+			return true
+		})
 		// transitiveResolver(base, ref): base as above, ref is the $ref of the element at hand
 		n := 0
 		ast.Inspect(fd.Body, func(nd ast.Node) bool {
